@@ -124,6 +124,7 @@ type VC struct {
 	anchorHits map[string]int
 	loopDirect map[types.Object]bool // variables directly assigned in the loop being entered
 	pureAx     map[string]bool
+	repFacts   map[string]bool
 	symCache   [][]string
 	symMu      sync.Mutex
 	pcTab      *pcDefTable
